@@ -642,6 +642,11 @@ func judge(sh *shapeDef, st site, c *cell, o obsCell) string {
 	case "open":
 		return ""
 	case "allow":
+		if c.Path == "[]" {
+			// `[]` on a plain object is an origami extension (PHP: "Cannot use object as array");
+			// refusing non-public members there altogether is stricter than needed, not a leak
+			return ""
+		}
 		if o.Status == "denied" {
 			return "wrong-deny"
 		}
@@ -662,14 +667,23 @@ func judge(sh *shapeDef, st site, c *cell, o obsCell) string {
 		if eff {
 			return "wrong-allow"
 		}
-		// no error, no visible effect on the member. PHP treats a private member seen from a
-		// descendant as a different, undeclared property (read: null + warning, write: creates
-		// a dynamic property) – accepted as long as the private member itself is untouched.
-		if c.M.mod == "private" && c.M.kind == "prop" && !c.M.static && sh.isDesc(st.lex, sh.decl) && !strings.Contains(o.Pre, "<run:") {
+		// no error, no visible effect on the member. On an object of a *descendant* class PHP
+		// treats an inaccessible private property of the ancestor as a different, undeclared
+		// property (read: null + warning, write: creates a dynamic property) – accepted as long
+		// as the private member itself is untouched.
+		if c.M.mod == "private" && c.M.kind == "prop" && !c.M.static && recvClass(st, c) != sh.decl {
 			return ""
 		}
 		return "no-error"
 	}
+}
+
+// recvClass is the runtime class (role) of the receiver object of a cell.
+func recvClass(st site, c *cell) string {
+	if c.Recv == "this" {
+		return st.thisR
+	}
+	return strings.TrimPrefix(c.Recv, "o:")
 }
 
 func visKey(sh *shapeDef, st site, c *cell, clause string) string {
